@@ -4265,7 +4265,10 @@ class EntityMeta(type):
         query_key = batch_size, attr, from_seeds, attrs_to_prefetch
         cached_sql = entity._batchload_sql_cache_.get(query_key)
         if cached_sql is not None: return cached_sql
-        select_list, attr_offsets = entity._construct_select_clause_(all_attributes=True)
+        # the attribute the rows are selected by must be in the row even if it is lazy:
+        # merging it is what puts each object into its owner's collection
+        select_list, attr_offsets = entity._construct_select_clause_(
+            all_attributes=True, query_attrs=() if attr is None else (attr,))
         from_list = [ 'FROM', [ None, 'TABLE', entity._table_ ]]
         if attr is None:
             columns = entity._pk_columns_
